@@ -7,12 +7,20 @@ import (
 	"go/constant"
 	"go/token"
 	"go/types"
+	"os"
 	"regexp"
 	"strings"
 	"time"
 
 	"golang.org/x/tools/go/ssa"
 )
+
+var debugUndecided = func() int {
+	if os.Getenv("VP_DEBUG_UNDECIDED") != "" {
+		return 40
+	}
+	return 0
+}()
 
 // PathEnd is thrown (as a Go panic) to end the current path.
 type PathEnd struct {
@@ -109,6 +117,8 @@ type Exec struct {
 	guard                *Term
 	spec                 int
 	rawInit              bool
+	rngCache             map[int]rng
+	varRng               map[int]rng
 	pathDeadline         time.Time
 	regexps              map[*Loc]*regexp.Regexp
 	noMerge              bool
@@ -173,11 +183,16 @@ func (ex *Exec) assert(c *Term) {
 		return
 	}
 	ex.pcond = append(ex.pcond, c)
+	ex.learn(c, true)
 	ex.sol.Assert(c)
 }
 
 func (ex *Exec) check(extra ...*Term) Result {
+	t0 := time.Now()
 	r := ex.sol.Check(extra...)
+	if d := time.Since(t0); d > 300*time.Millisecond && os.Getenv("VP_SLOWQUERY") != "" && len(extra) > 0 {
+		fmt.Fprintf(os.Stderr, "SLOWQUERY %.2fs %s pc=%d: %s\n", d.Seconds(), r, len(ex.pcond), termString(extra[0], 5))
+	}
 	if r == Unknown && !ex.sol.dead {
 		r = ex.sol.OneShot(ex.pcond, extra, ex.inputs, 90)
 	}
@@ -190,6 +205,28 @@ func (ex *Exec) branch(c *Term) bool {
 		return c.C != 0
 	}
 	d := ex.memo(func() int64 {
+		switch ex.decide(c) {
+		case 1:
+			ex.stats.Filtered++
+			return 3
+		case 0:
+			ex.stats.Filtered++
+			return 2
+		}
+		if debugUndecided > 0 {
+			debugUndecided--
+			fmt.Fprintf(os.Stderr, "UNDECIDED %s  ranges: %v | %v\n", termString(c, 6), func() rng {
+				if len(c.A) > 0 {
+					return ex.rangeOf(c.A[0])
+				}
+				return rng{}
+			}(), func() rng {
+				if len(c.A) > 1 {
+					return ex.rangeOf(c.A[1])
+				}
+				return rng{}
+			}())
+		}
 		rt := ex.check(c)
 		rf := ex.check(ex.st.Not(c))
 		if rt == Unknown || rf == Unknown {
@@ -300,6 +337,10 @@ func (ex *Exec) checkPanic(kind string, bad *Term, msg string) {
 	}
 	site := ex.siteName() + ":" + kind
 	d := ex.memo(func() int64 {
+		if ex.decide(bad) == 0 {
+			ex.stats.Filtered++
+			return 0
+		}
 		r := ex.check(bad)
 		if r == Unsat {
 			return 0
